@@ -60,11 +60,47 @@ def _tcp(data: bytes, cuts) -> str:
     return " ; ".join(ctl.msgs) + "|" + err
 
 
+ADDR_SHAPES = ("tuple4", "tuple6", "iaddr4", "iaddr6")
+
+
+def _addr(shape):
+    """the address shapes real transports hand to datagramReceived: a (host, port) tuple from an IPv4 UDP port, a
+    (host, port, flowinfo, scopeid) tuple from an IPv6 one; IAddress objects are what the unit tests use"""
+    from twisted.internet.address import IPv4Address, IPv6Address
+    return {"tuple4": ("192.0.2.7", 5353), "tuple6": ("2001:db8::7", 5353, 0, 0),
+            "iaddr4": IPv4Address("UDP", "192.0.2.7", 5353), "iaddr6": IPv6Address("UDP", "2001:db8::7", 5353)}[shape]
+
+
+def _udp(data: bytes, shape) -> str:
+    """the UDP path: DNSDatagramProtocol.datagramReceived(data, addr) on a started protocol"""
+    from twisted.internet import task
+    from twisted.names import dns
+    from twisted.python import log
+    ctl = _Controller()
+    p = dns.DNSDatagramProtocol(ctl, reactor=task.Clock())
+    p.makeConnection(object())                      # DatagramProtocol.makeConnection -> startProtocol
+    errors = []
+    obs = lambda ev: errors.append(ev) if ev.get("isError") else None
+    log.addObserver(obs)
+    try:
+        try:
+            p.datagramReceived(data, _addr(shape))
+        except Exception as e:                      # must never happen: a malformed datagram is dropped
+            return "E:" + type(e).__name__
+    finally:
+        log.removeObserver(obs)
+    if errors:
+        return "unexpected"                         # logged as "Unexpected decoding error"
+    return ("delivered:" + ctl.msgs[0]) if ctl.msgs else "dropped"
+
+
 def impl(case) -> str:
     from twisted.names import dns
     data = bytes.fromhex(case["data"])
     if case.get("tcp"):
         return _tcp(data, case["cuts"])
+    if case.get("udp"):
+        return _udp(data, case["udp"])
     m = dns.Message()
     try:
         m.fromStr(data)
@@ -82,6 +118,13 @@ def impl(case) -> str:
 
 
 def oracle(case, obs):
+    if case.get("udp"):
+        if obs.startswith("E:"):
+            return Failure(case, f"DNSDatagramProtocol.datagramReceived raised {obs[2:]} for a datagram from a "
+                                 f"{case['udp']} address instead of dropping it", "udp-raised-" + obs[2:])
+        if obs == "unexpected":
+            return Failure(case, "the datagram was logged as an 'Unexpected decoding error'", "udp-unexpected-error")
+        return None
     if case.get("tcp"):
         err = obs.rsplit("|", 1)[1]
         first = len(chunks(case["cuts"], bytes.fromhex(case["data"]))[0]) if case["data"] and case["cuts"] else None
@@ -284,6 +327,13 @@ def mutate(rng, d: bytes) -> bytes:
 
 def corpus():
     cs = [{"data": d.hex(), "edns": True} for d in handcrafted()]
+    # the UDP path with every address shape, for every family of malformed datagram
+    fam = [b"", b"\x00" * 11, b"\x12\x34\x01\x00\x00\x01\x00\x00\x00\x00\x00\x00\x03ab",             # empty, short, cut question
+           b"\x12\x34\x01\x00\x00\x01\x00\x00\x00\x00\x00\x00\xc0\x0c\x00\x01\x00\x01",            # pointer loop
+           b"\x12\x34\x01\x00\x00\x01\x00\x00\x00\x00\x00\x00\x00\x00\x01\x00\x01"]                  # a valid query
+    for d in fam + handcrafted()[:12]:
+        for shape in ADDR_SHAPES:
+            cs.append({"udp": shape, "data": d.hex()})
     cs += [{"data": d.hex(), "edns": False} for d in long_chains((300, 1000, 4000, 8170))]
     one = W.ref_encode({"hdr": {"id": 1, "answer": 0, "opCode": 0, "auth": 0, "trunc": 0, "recDes": 1, "recAv": 0,
                                 "authenticData": 0, "checkingDisabled": 0, "rCode": 0},
@@ -317,6 +367,14 @@ def gen(rng, tier):
                 d = mutate(rng, d)
         cases.append({"data": d.hex(), "edns": rng.random() < 0.3})
     for i in range(n // 3):
+        m = c32.gen_message(rng, rng.choice(["tiny", "small"]))
+        d = W.ref_encode(m)[:800]
+        if rng.random() < 0.85:
+            d = mutate(rng, d)
+        if rng.random() < 0.1:
+            d = _rb(rng, rng.choice([0, 1, 5, 11, 12, 20]))
+        cases.append({"udp": rng.choice(ADDR_SHAPES), "data": d.hex()})
+    for i in range(n // 3):
         d = tcp_stream(rng)
         cases.append({"tcp": True, "data": d.hex(), "cuts": tcp_cuts(rng, len(d))})
     if tier == "thorough":
@@ -327,6 +385,8 @@ def gen(rng, tier):
 def to_coq(case):
     if len(case["data"]) > 4000:
         return None
+    if case.get("udp"):
+        return f"KUdp {W.coq_bytes(bytes.fromhex(case['data']))}"
     if case.get("tcp"):
         cuts = "[" + "; ".join(f"{k}%N" for k in case["cuts"]) + "]" if case["cuts"] else "(@nil N)"
         return f"KTcp {W.coq_bytes(bytes.fromhex(case['data']))} {cuts}"
@@ -334,6 +394,8 @@ def to_coq(case):
 
 
 def hist(case, obs):
+    if case.get("udp"):
+        return "udp:" + case["udp"] + ":" + obs.split(":")[0]
     if case.get("tcp"):
         return "tcp:" + obs.rsplit("|", 1)[1] + (":1-byte-first-segment" if case["cuts"][:1] == [1] else "")
     main = obs.partition("#edns:")[0]
@@ -367,7 +429,10 @@ SPEC = Spec(
     model_equal=model_equal,
     nontrivial=lambda c, o: len(c["data"]) >= 24,
     case_timeout=5.0,
-    rule="TCP path: DNSProtocol.dataReceived fed with 1-3 length-prefixed messages (valid, mutated, wrong / zero / 65535 "
+    rule="UDP path: DNSDatagramProtocol.datagramReceived(data, addr) with the address shapes real transports use - a (host, "
+         "port) tuple (IPv4), a 4-tuple (IPv6) - and IAddress objects, for empty / short / cut / pointer-loop / valid and "
+         "mutated datagrams: must return normally (delivered or dropped), never raise, never log an unexpected error. "
+         "TCP path: DNSProtocol.dataReceived fed with 1-3 length-prefixed messages (valid, mutated, wrong / zero / 65535 "
          "length prefix, truncated streams) or raw bytes, cut into segments with a ONE-byte first segment (25%), 1+1, 2, "
          "3, byte-wise, whole, Fibonacci-sized; result compared with whole and byte-wise delivery. Long ACYCLIC "
          "pointer chains of 300/1000/4000/8170 hops (thorough also 980..8000), forward and backward, ending in the root "
